@@ -9,9 +9,10 @@ COMMON_ASSUME = [
 
 PROPS = {
     "C01": {
+        "rel_replay": True,
         "quick_ms": 20000,
         "thorough_ms": 300000,
-        "floors": {"gate.accepted": 2000, "result.ok": 1000, "result.err": 1000, "ignore_errors.parses": 50},
+        "floors": {"gate.accepted": 1000, "result.ok": 500, "result.err": 500, "ignore_errors.parses": 25},
         "rule": "random command trees (wild + targeted strata: args_conflicts_with_subcommands x groups x flag subcommands, "
                 "hyphen values x terminators, allow_missing_positional x last, infer_*, ignore_errors, external subcommands), "
                 "validity-gated by clap's own debug asserts, x hostile argv (tree-derived names 60%, hostile token alphabet incl. "
@@ -57,8 +58,8 @@ PROPS = {
     "C20": {
         "quick_ms": 15000,
         "thorough_ms": 240000,
-        "floors": {"plain.with_breaks": 10000, "plain.no_breaks": 1000, "styled.with_breaks": 1000, "styled.with_escapes": 500,
-                   "plain.overlong_single_word": 100, "exhaustive.strings": 100000},
+        "floors": {"plain.with_breaks": 5000, "plain.no_breaks": 500, "styled.with_breaks": 500, "styled.with_escapes": 250,
+                   "plain.overlong_single_word": 50, "exhaustive.strings": 50000},
         "rule": "exhaustive: every string of <= 6 (quick) / 7 (thorough) symbols over {a, bb, ' ', '  ', LF, wide CJK, e+combining acute} "
                 "x widths 1..8 through textwrap::wrap (template `[{author}]`), one width each through StyledStr::wrap (`[{about}]`); "
                 "random: 1-60 words of 1-30 chars incl. wide, zero-width, combining, emoji, hyphens; multiple spaces, indented lines, "
@@ -77,9 +78,9 @@ PROPS = {
     "C04": {
         "quick_ms": 12000,
         "thorough_ms": 240000,
-        "floors": {"ranged.accepted": 10000, "ranged.rejected": 100000, "ranged.real_parse_ok": 1000, "boolish.accepted": 50, "boolish.rejected": 50,
-                   "falsey.accepted": 50, "possible.accepted": 1000, "possible.rejected": 1000, "access.downcast": 500, "access.unknown": 500,
-                   "access.removed": 500, "exhaustive.triples": 1000000},
+        "floors": {"ranged.accepted": 5000, "ranged.rejected": 50000, "ranged.real_parse_ok": 500, "boolish.accepted": 25, "boolish.rejected": 25,
+                   "falsey.accepted": 25, "possible.accepted": 500, "possible.rejected": 500, "access.downcast": 250, "access.unknown": 250,
+                   "access.removed": 250, "exhaustive.triples": 500000},
         "rule": "exhaustive: for T in {i8,i16,i32,i64,u8,u16,u32} x ranges with bounds from {T::MIN, T::MIN+1, -1, 0, 1, T::MAX-1, T::MAX} "
                 "(plus, on a full-i64 base parser, T::MIN-3, T::MAX+3, i64::MIN, i64::MAX) x {inclusive, exclusive, unbounded} x candidate "
                 "values b+d (b in range bounds, T limits, i64/u64 limits, +-2^63, 2^64; d in -2..2) x spellings (plain, +, leading zeros, -0, "
@@ -102,9 +103,9 @@ PROPS = {
     "C02": {
         "quick_ms": 20000,
         "thorough_ms": 300000,
-        "floors": {"result.ok": 20000, "spelling.cluster.option-last": 200, "spelling.opt.long-eq": 1000, "spelling.opt.short-attached": 300,
-                   "spelling.prefix.long": 500, "spelling.escape.optional": 300, "spelling.escape.required-for-last": 300,
-                   "spelling.terminator": 200, "spelling.sub.short-flag": 100, "spelling.sub.long-flag": 100, "spelling.pos.multi": 1000},
+        "floors": {"result.ok": 10000, "spelling.cluster.option-last": 100, "spelling.opt.long-eq": 500, "spelling.opt.short-attached": 150,
+                   "spelling.prefix.long": 250, "spelling.escape.optional": 150, "spelling.escape.required-for-last": 150,
+                   "spelling.terminator": 100, "spelling.sub.short-flag": 50, "spelling.sub.long-flag": 50, "spelling.pos.multi": 500},
         "rule": "conventional-class command trees (flags SetTrue/SetFalse/Count, options Set/Append with num_args in {1, 2, 1..=3, 2..=3, 1.., 0.., 0..=1}, "
                 "delimiters, require_equals, terminators, positionals with a multi-valued/last final one, subcommands with aliases and "
                 "short/long flag forms, infer_long_args/infer_subcommands, depth <= 2) x valid intents (ordered occurrences whose values are "
@@ -122,8 +123,8 @@ PROPS = {
     "C07": {
         "quick_ms": 15000,
         "thorough_ms": 240000,
-        "floors": {"fold.ok": 20000, "repeat.rejected": 2000, "fold.count_saturated": 200, "fold.removed_by_override": 1000,
-                   "fold.append_multi": 1000, "seq.count_boundary": 500},
+        "floors": {"fold.ok": 10000, "repeat.rejected": 1000, "fold.count_saturated": 100, "fold.removed_by_override": 500,
+                   "fold.append_multi": 500, "seq.count_boundary": 250},
         "rule": "1-4 arguments (Set/Append/SetTrue/SetFalse/Count, optional num_args 1..=2, delimiter, default) with a random override graph "
                 "(both declaration directions, self-overrides, args_override_self) x occurrence sequences of length 0..300 "
                 "(0, 1, 2, 254, 255, 256, 257, 300 always drawn; long runs focus one argument with others interleaved) x spellings "
@@ -138,9 +139,9 @@ PROPS = {
     "C08": {
         "quick_ms": 20000,
         "thorough_ms": 300000,
-        "floors": {"rewrite.both-ok": 20000, "ambiguous.probes": 2000, "ambiguous.arg-vs-flag-subcommand": 100, "ambiguous.sub-probes": 100,
-                   "spelling.prefix.long": 500, "spelling.cluster.flags": 300, "spelling.opt.short-attached": 300, "spelling.escape.optional": 300,
-                   "spelling.sub.alias": 200, "rewrite.index-rank-compare": 200},
+        "floors": {"rewrite.both-ok": 10000, "ambiguous.probes": 1000, "ambiguous.arg-vs-flag-subcommand": 50, "ambiguous.sub-probes": 50,
+                   "spelling.prefix.long": 250, "spelling.cluster.flags": 150, "spelling.opt.short-attached": 150, "spelling.escape.optional": 150,
+                   "spelling.sub.alias": 100, "rewrite.index-rank-compare": 100},
         "rule": "conventional command trees (as C02) x valid intents; the canonical rendering (full names, separate tokens) is compared with 3 "
                 "random re-spellings of the same intent (compositions of: --o=v / --o v, -ov / -o v / -o=v, clusters / separate flags, "
                 "option last in a cluster, long/short/subcommand/flag-subcommand aliases, unique prefixes under infer_*, `--` before a "
@@ -158,7 +159,7 @@ PROPS = {
     "C05": {
         "quick_ms": 15000,
         "thorough_ms": 240000,
-        "floors": {"tail.ok": 20000, "tail.dash-tokens": 10000},
+        "floors": {"tail.ok": 10000, "tail.dash-tokens": 5000},
         "rule": "conventional commands (options, flags, subcommands incl. flag subcommands, infer_*) whose tail level (root or a subcommand) ends in a "
                 "multi-valued positional `rest` (num_args 0.. / 1.., Set/Append, with/without last(true), with/without a leading single positional, "
                 "String or OsString parser, optional delimiter, dont_delimit_trailing_values) x valid prefixes rendered from intents (any spelling; "
@@ -175,8 +176,8 @@ PROPS = {
     "C06": {
         "quick_ms": 15000,
         "thorough_ms": 240000,
-        "floors": {"lattice.Cli": 20000, "lattice.Env": 10000, "lattice.Default": 10000, "lattice.absent": 5000, "lattice.default_if_fired": 2000,
-                   "lattice.default_if_unset": 300, "lattice.default_missing_used": 2000, "verdict.err-as-expected": 3000},
+        "floors": {"lattice.Cli": 10000, "lattice.Env": 5000, "lattice.Default": 5000, "lattice.absent": 2500, "lattice.default_if_fired": 1000,
+                   "lattice.default_if_unset": 150, "lattice.default_missing_used": 1000, "verdict.err-as-expected": 1500},
         "rule": "2-5 arguments each drawing a subset of {default_value(s), default_value_if(s) (IsPresent/Equals, Some/None default) on a plain "
                 "option, default_missing + num_args(0..=1) (+ require_equals), env (set/unset, delimiter-split), flags with env true/false} plus one "
                 "conflict, one requires and arg_required_else_help chosen so that only a *defaulted* argument could trigger them; x environments x argv "
@@ -192,9 +193,9 @@ PROPS = {
     "C09": {
         "quick_ms": 20000,
         "thorough_ms": 300000,
-        "floors": {"result.ok": 20000, "global.supplied-at-depth-1": 3000, "global.supplied-at-depth-2": 1000, "external.checked": 300,
-                   "spelling.cluster.child-flags-after-flag-sub": 300, "spelling.cluster.parent-flags-before-flag-sub": 100,
-                   "spelling.sub.short-flag": 500, "spelling.sub.long-flag": 300, "spelling.sub.alias": 300},
+        "floors": {"result.ok": 10000, "global.supplied-at-depth-1": 1500, "global.supplied-at-depth-2": 500, "external.checked": 150,
+                   "spelling.cluster.child-flags-after-flag-sub": 150, "spelling.cluster.parent-flags-before-flag-sub": 50,
+                   "spelling.sub.short-flag": 250, "spelling.sub.long-flag": 150, "spelling.sub.alias": 150},
         "rule": "conventional trees of depth <= 2 with global flags/options (SetTrue/SetFalse/Count/Set, defaults) defined at depth 0 or 1, aliases, "
                 "short/long flag subcommands, external subcommands (OsString/String) x intents in which every level may supply the globals it "
                 "inherits x spellings incl. `-Syu` (child flags continuing the flag-subcommand token), `-vS` (parent flags before it) and nested "
@@ -209,8 +210,8 @@ PROPS = {
     "C03": {
         "quick_ms": 15000,
         "thorough_ms": 240000,
-        "floors": {"result.ok": 20000, "result.err": 20000, "relevant.requirement-satisfied": 5000, "relevant.exempt-conflict": 1000,
-                   "relevant.exempt-exclusive": 200, "relevant.exempt-subcommand": 500, "relevant.conflict-half-present": 1000},
+        "floors": {"result.ok": 10000, "result.err": 10000, "relevant.requirement-satisfied": 2500, "relevant.exempt-conflict": 500,
+                   "relevant.exempt-exclusive": 100, "relevant.exempt-subcommand": 250, "relevant.conflict-half-present": 500},
         "rule": "2-7 flags/options (defaults, env) + 0-2 groups (required/multiple/conflicts/requires) with random relation digraphs: conflicts_with "
                 "(args and groups), requires, requires_if(s), overrides (1/3 of cases, incl. chains and self), required, exclusive, "
                 "required_unless_present_any/_all, required_if_eq_any/_all, subcommand_negates_reqs / args_conflicts_with_subcommands x argv "
@@ -227,10 +228,10 @@ PROPS = {
     "C10": {
         "quick_ms": 20000,
         "thorough_ms": 300000,
-        "floors": {"faultfree.accepted": 10000, "fault.UnknownLong": 5000, "fault.SurplusPositional": 1000, "fault.DropRequired": 1000, "fault.RepeatSet": 300,
-                   "fault.TooFewValues": 1000, "fault.NoValueAtEnd": 1000, "fault.ValueOnFlag": 2000, "fault.BadTypedValue": 500, "fault.MissingEquals": 80,
-                   "fault.MissingSubcommand": 100, "fault.NonUtf8": 3000, "contract.DisplayHelp": 100, "contract.DisplayVersion": 30,
-                   "relations.conflict-error": 2000, "relations.missing-error": 2000, "suggestion.arg": 100, "suggestion.subcommand": 30},
+        "floors": {"faultfree.accepted": 5000, "fault.UnknownLong": 2500, "fault.SurplusPositional": 500, "fault.DropRequired": 500, "fault.RepeatSet": 150,
+                   "fault.TooFewValues": 500, "fault.NoValueAtEnd": 500, "fault.ValueOnFlag": 1000, "fault.BadTypedValue": 250, "fault.MissingEquals": 40,
+                   "fault.MissingSubcommand": 50, "fault.NonUtf8": 1500, "contract.DisplayHelp": 50, "contract.DisplayVersion": 15,
+                   "relations.conflict-error": 1000, "relations.missing-error": 1000, "suggestion.arg": 50, "suggestion.subcommand": 15},
         "rule": "conventional trees (as C02, with typed options and subcommand_required levels) x valid intents: (a) the fault-free rendering must be "
                 "accepted; (b) 12 single-fault injectors, each applied only where it breaks exactly one rule (unknown long/short in front, surplus "
                 "positional, dropped required option, repeated non-overriding Set, one value too few, option at end without value, `--flag=v`, "
@@ -248,7 +249,7 @@ PROPS = {
     "C11": {
         "quick_ms": 20000,
         "thorough_ms": 300000,
-        "floors": {"agree.ok": 10000, "agree.err": 50000, "build.idempotence-checked": 5000, "reused.after-history": 20000, "reused.explicitly-built": 3000},
+        "floors": {"agree.ok": 5000, "agree.err": 25000, "build.idempotence-checked": 2500, "reused.after-history": 10000, "reused.explicitly-built": 1500},
         "rule": "wild (C01 generator) and conventional (globals, defaults, flag subcommands) command trees, no multicall; one long-lived Command "
                 "value is driven through a random history of length 2-10 over {try_get_matches_from_mut(hostile argv), build(), render_help, "
                 "render_long_help, render_usage, clone-and-continue}; after every parse step the result is compared with (i) a fresh value, "
@@ -261,11 +262,12 @@ PROPS = {
         "level_note": "Known findings F16/F20 (help-subcommand shape depends on build timing) are keyed on their exact signatures; any other difference is a fresh violation.",
     },
     "C12": {
+        "rel_replay": True,
         "quick_ms": 20000,
         "thorough_ms": 300000,
-        "floors": {"render.ok": 20000, "render.width-sweep": 20000, "helpflag.rendered": 20000, "helpflag.level-checked": 10000, "visible.checked": 50000,
-                   "visible.checked-short-only": 3000, "hidden.arg-checked": 3000, "hidden.subcommand-checked": 3000, "hidden.possible-value-checked": 300,
-                   "visible.possible-value-checked": 1000, "stratum.sparse-sections": 2000, "helpsub.rendered": 2000},
+        "floors": {"render.ok": 10000, "render.width-sweep": 10000, "helpflag.rendered": 10000, "helpflag.level-checked": 5000, "visible.checked": 25000,
+                   "visible.checked-short-only": 1500, "hidden.arg-checked": 1500, "hidden.subcommand-checked": 1500, "hidden.possible-value-checked": 150,
+                   "visible.possible-value-checked": 500, "stratum.sparse-sections": 1000, "helpsub.rendered": 1000},
         "rule": "wild command trees (depth <= 2; any mix of short-only/long-only flags, counts, options with value names, positionals, headings, "
                 "display orders, hidden/hide_short_help/hide_long_help/next_line_help items, possible values with hidden ones, aliases, defaults, "
                 "groups, relations, all command settings incl. flatten_help/next_line_help/hide_possible_values, benign or hostile text, custom "
@@ -283,8 +285,8 @@ PROPS = {
     "C19": {
         "quick_ms": 15000,
         "thorough_ms": 240000,
-        "floors": {"pages.rendered": 50000, "control.pages-compared": 20000, "visible.arg-checked": 30000, "hidden.arg-checked": 3000,
-                   "visible.subcommand-checked": 5000, "hidden.subcommand-checked": 1000},
+        "floors": {"pages.rendered": 25000, "control.pages-compared": 10000, "visible.arg-checked": 15000, "hidden.arg-checked": 1500,
+                   "visible.subcommand-checked": 2500, "hidden.subcommand-checked": 500},
         "rule": "wild command trees (depth <= 2, marker names as in C12, env, defaults, headings, possible values with help, versions, authors) in two "
                 "variants with identical structure and identical line structure of every text slot: benign words vs adversarial lines (each "
                 "starting with one of . ' \\ - \" .SH 'br \\fB .\\\" .. followed by hostile fragments: quotes, backslashes, $(), backticks, "
@@ -303,9 +305,9 @@ PROPS = {
     "C18": {
         "quick_ms": 20000,
         "thorough_ms": 300000,
-        "floors": {"totality.candidates": 20000, "totality.no-completion": 5000, "soundness.queries": 100000, "soundness.arg-candidates": 100000,
-                   "soundness.command-candidates": 10000, "completeness.args-expected": 50000, "completeness.subcommands-expected": 10000,
-                   "stratum.canonical-spellings": 5000},
+        "floors": {"totality.candidates": 10000, "totality.no-completion": 2500, "soundness.queries": 50000, "soundness.arg-candidates": 50000,
+                   "soundness.command-candidates": 5000, "completeness.args-expected": 25000, "completeness.subcommands-expected": 5000,
+                   "stratum.canonical-spellings": 2500},
         "rule": "totality: wild gate-accepted trees (path value hints removed so the file system never enters) x hostile argv x every cursor index "
                 "0..=len+1: complete() returns candidates or the plain 'no completion generated' error, all candidate accessors work, < 5 s CPU. "
                 "soundness/completeness: conventional trees with globals, hidden args/subcommands x prefixes rendered from valid intents that end "
@@ -324,8 +326,8 @@ PROPS = {
     "C16": {
         "quick_ms": 30000,
         "thorough_ms": 300000,
-        "floors": {"generated.bash": 1000, "generated.zsh": 1000, "generated.fish": 1000, "generated.powershell": 1000, "generated.elvish": 1000,
-                   "generated.nushell": 1000, "mention.checked": 50000, "bash.syntax-ok": 1000, "bash.queries": 20000},
+        "floors": {"generated.bash": 500, "generated.zsh": 500, "generated.fish": 500, "generated.powershell": 500, "generated.elvish": 500,
+                   "generated.nushell": 500, "mention.checked": 25000, "bash.syntax-ok": 500, "bash.queries": 10000},
         "rule": "wild command trees (depth <= 2, marker names incl. hyphenated / underscored / rarely `__` subcommand names, aliases, flag subcommands, "
                 "value hints, possible values incl. hidden, hidden args/subcommands, globals, groups/relations, benign or hostile text) x the six "
                 "generators: no panic, two generations byte-identical, every non-hidden long / visible long alias / non-hidden possible value / "
@@ -343,8 +345,8 @@ PROPS = {
     "C17": {
         "quick_ms": 25000,
         "thorough_ms": 300000,
-        "floors": {"compared.bash": 3000, "compared.zsh": 3000, "compared.fish": 3000, "compared.powershell": 3000, "compared.elvish": 3000, "compared.nushell": 3000,
-                   "bash.syntax-ok": 3000},
+        "floors": {"compared.bash": 1500, "compared.zsh": 1500, "compared.fish": 1500, "compared.powershell": 1500, "compared.elvish": 1500, "compared.nushell": 1500,
+                   "bash.syntax-ok": 1500},
         "rule": "wild trees (as C16) in two variants with identical structure and identical line structure of every descriptive slot (about, long_about, "
                 "before/after(_long)_help, author, versions, arg help/long_help, possible-value help): benign words vs adversarial lines (quotes of "
                 "either kind, typographic quotes U+2018-201B, backslashes, $(...), ${...}, backticks, brackets, colons, braces, {n}, ;|&#!%*?~<>, tabs, "
@@ -360,8 +362,8 @@ PROPS = {
     "C15": {
         "quick_ms": 15000,
         "thorough_ms": 240000,
-        "floors": {"roundtrip.ok": 20000, "agree.ok": 30000, "agree.err": 30000, "update.ok": 10000, "update.unnamed-field-kept": 10000, "value_enum.names": 1000,
-                   "type.A": 1000, "type.B": 1000, "type.C": 1000, "type.D": 1000, "type.E": 1000, "type.F": 1000, "type.G": 1000, "type.L": 1000},
+        "floors": {"roundtrip.ok": 10000, "agree.ok": 15000, "agree.err": 15000, "update.ok": 5000, "update.unnamed-field-kept": 5000, "value_enum.names": 500,
+                   "type.A": 500, "type.B": 500, "type.C": 500, "type.D": 500, "type.E": 500, "type.F": 500, "type.G": 500, "type.L": 500},
         "rule": "corpus of 8 derived Parser types (+ Args, 3 Subcommand enums, 1 ValueEnum) spanning bool / SetFalse bool / counter / T / Option<T> / "
                 "Option<Option<T>> / Vec<T> / Option<Vec<T>> / delimited Vec / fixed-arity Vec / last Vec / positionals / default_value_t / "
                 "default_values_t / default_missing_value / env / rename_all / flatten / global / optional, required, nested and external subcommands / "
